@@ -439,6 +439,22 @@ func (l *queue) Advance() error {
 	return nil
 }
 
+// SkipExhausted drops the head segment if it has been fully read and other
+// segments follow. Unlike Advance it never moves past a block, so it is safe
+// to call when a concurrent Append may have added one since Current returned EOF.
+func (l *queue) SkipExhausted() error {
+	l.mu.Lock()
+	defer l.mu.Unlock()
+	if l.head == nil {
+		return ErrNotOpen
+	}
+
+	if _, err := l.head.current(); err == io.EOF {
+		return l.trimHead()
+	}
+	return nil
+}
+
 func (l *queue) trimHead() error {
 	if len(l.segments) > 1 {
 		l.segments = l.segments[1:]
